@@ -111,9 +111,13 @@ def _work(job):
     mon.install(only=set(targets))
     bad = []
     try:
+        from harness import watchdog
         for it in items:
             n0 = len(mon.violations)
-            run_item(it)
+            try:
+                watchdog.call(lambda: run_item(it), 30)
+            except watchdog.Hang:
+                break       # a call that does not return is C08/C09's finding; the cross-check stops here
             for v in mon.violations[n0:]:
                 if pid in v['props'] and sum(1 for b in bad if b['clause'] == v['oid']) < 2:
                     bad.append({'clause': v['oid'], 'detail': '%s on the call %s' % (v['detail'], v['call'],),
